@@ -130,6 +130,13 @@ func RunOneCapped(t *testing.T, prop string, seed uint64, replay []int, tier str
 					res.Steps = s.Steps
 					res.SimTimeMs = w.Now().Milliseconds()
 					res.LogHash = fmt.Sprintf("%016x", w.LogHash())
+					if p := os.Getenv("SIM_CHOICELOG"); p != "" { // debugging aid: the labelled choice sequence of the run
+						var sb strings.Builder
+						for i, r := range cs.Log {
+							fmt.Fprintf(&sb, "%d %s %d/%d\n", i, r.Label, r.V, r.N)
+						}
+						_ = os.WriteFile(fmt.Sprintf("%s.%d", p, seed), []byte(sb.String()), 0o644)
+					}
 					res.SwitchHash = fmt.Sprintf("%016x", w.SwitchHash())
 					res.Switches = w.Switches
 					res.Edges = w.Edges()
